@@ -243,6 +243,34 @@ func injectExtensionTargets(w *model.World, r *sim.RNG) []refCase {
 		out = append(out, refCase{"schema", w.Root, "/" + strings.ToLower(name) + "/Thing"})
 	}
 	out = append(out, refCase{"schema", w.Root, "/" + name + "/Thing"}, refCase{"schema", w.Root, "/" + name + "/other"}, refCase{"schema", w.Root, "/" + name + "/other/items"})
+	if paths, ok := root["paths"].(map[string]interface{}); ok && r.Bool(0.6) {
+		// the same inside the containers that are no schemas: paths, a path item, the responses of an operation
+		paths["x-Paths-Ext"] = map[string]interface{}{"Thing": leaf("ext of paths")}
+		out = append(out, refCase{"schema", w.Root, "/paths/x-Paths-Ext/Thing"})
+		for _, pn := range keys(paths) {
+			pi, ok := paths[pn].(map[string]interface{})
+			if !ok || !strings.HasPrefix(pn, "/") {
+				continue
+			}
+			if _, isRef := pi["$ref"]; isRef {
+				continue
+			}
+			pi["x-Item-Ext"] = map[string]interface{}{"Thing": leaf("ext of path item " + pn)}
+			out = append(out, refCase{"schema", w.Root, "/paths/" + model.Esc(pn) + "/x-Item-Ext/Thing"})
+			for _, opn := range model.OpNames {
+				op, ok := pi[opn].(map[string]interface{})
+				if !ok {
+					continue
+				}
+				if rs, ok := op["responses"].(map[string]interface{}); ok {
+					rs["x-Resp-Ext"] = map[string]interface{}{"Thing": leaf("ext of responses " + pn)}
+					out = append(out, refCase{"schema", w.Root, "/paths/" + model.Esc(pn) + "/" + opn + "/responses/x-Resp-Ext/Thing"})
+					break
+				}
+			}
+			break
+		}
+	}
 	if defs, ok := root["definitions"].(map[string]interface{}); ok {
 		for _, dn := range keys(defs) {
 			d, ok := defs[dn].(map[string]interface{})
